@@ -338,8 +338,11 @@ class Ctx:
         ev = {'property_id': self.prop, 'tier': self.tier, 'seed': int(self.seed), 'level': LEVEL,
               'coverage': cov, 'assumptions': self.assumptions, 'wall_s': round(wall, 2),
               'violations': len(self.violations)}
-        (VERIF / 'evidence').mkdir(exist_ok=True)
-        (VERIF / 'evidence' / (self.prop + '.json')).write_text(json.dumps(ev, indent=1, default=str) + '\n')
+        # evidence describes runs against /repo itself; a run against another tree (PYIGA_REPO, used for the seeded
+        # changes) writes next to it under evidence-alt/ (not committed)
+        evdir = VERIF / ('evidence' if str(REPO) == '/repo' else 'evidence-alt')
+        evdir.mkdir(exist_ok=True)
+        (evdir / (self.prop + '.json')).write_text(json.dumps(ev, indent=1, default=str) + '\n')
         seen = {k[0] for k in self.known}
         for f in self.findings.data.get('findings', []):
             if f['property'] == self.prop:
